@@ -12,7 +12,7 @@ _SCHED_NOTE = ('context switches only at lock acquisitions / blocking operations
                'under the environment lock, the queue or the condition variable, or is one GIL-atomic dict operation); logical clock; '
                'logging disabled; probe tasks; TLC, the TLA+ value parser and the deterministic scheduler are trusted')
 CHECKS = {
-    'C01': dict(engine='Sched', category='model_checking', design_ref='DESIGN.md §4 C01',
+    'C01': dict(engine='Sched', also=['EnvOps'], category='model_checking', design_ref='DESIGN.md §4 C01',
                 text='Sched.tla models master and workers of the queue backend at the grain of their synchronisation points; TLC explores every '
                      'interleaving for all 2- and 3-task hard/soft graphs x outcomes x initial environments x 1-3 workers and checks that what a '
                      'task reads at the first instruction of do() is final and completely published (history variable seen). Bound to the code: '
@@ -169,6 +169,7 @@ ENGINES = {
     'Persist': dict(path='specs/Persist.tla', kind_free_text='persistence/crash state machine + PersistTrace.tla; conf_persist.py'),
     'Factory': dict(path='specs/Factory.tla', kind_free_text='request/task spec + FactoryImpl.tla refinement + FactoryTrace.tla; conf_factory.py'),
     'RunCmd': dict(path='specs/RunCmd.tla', kind_free_text='command runner + task directory spec + RunCmdTrace.tla; conf_runcmd.py'),
+    'EnvOps': dict(path='specs/EnvOps.tla', kind_free_text='Env.apply / set_status / get_status as a tree merge (+EnvOpsLaws.tla: laws of the merge, EnvOpsTrace.tla); run inside C01: only the clause "the applied update is readable and nothing else is lost" can raise a C01 violation; conf_envops.py'),
     'RList': dict(path='specs/RList.tla', kind_free_text='reverse-indexed list under DepGraph (observations only, run inside C16) + RListTrace.tla; conf_rlist.py'),
     'Decide': dict(path='specs/Decide.tla', kind_free_text='decision function of the backend for one task, all inputs (serves C02, C04) + DecideTrace.tla; conf_decide.py'),
     'Student': dict(path='specs/Student.tla', kind_free_text='function-like TLA+ spec + StudentTrace.tla; harness/laws.py, conf_student.py'),
